@@ -53,19 +53,38 @@ def run_lib(pid, tier):
             if rc != 0:
                 raise ToolError("lib-replay failed: " + out[-2000:])
 
-        def judge(i):
-            tr = os.path.join(work, "tr_%s.%d.ndjson" % (name, i))
-            with open(tr, "w") as f:
-                f.write(json.dumps({"ev": "Config", "devs": devs}) + "\n")
-                f.write(open(evs[i]).read())
-            r = tlc("Trace_Lib.tla", "Trace_Lib.cfg", os.path.join(work, "trl_%s_%d" % (name, i)), workers=1, timeout=3000,
+        # the judge reads a whole trace file into memory: the recorded events are judged in pieces of at most 3000 histories
+        pieces = []
+        for i in range(shards):
+            part, lines = 0, []
+
+            def flush(i=i):
+                nonlocal part, lines
+                if lines:
+                    tr = os.path.join(work, "tr_%s.%d.%d.ndjson" % (name, i, part))
+                    with open(tr, "w") as f:
+                        f.write(json.dumps({"ev": "Config", "devs": devs}) + "\n")
+                        f.writelines(lines)
+                    pieces.append((i, part, tr))
+                    part, lines = part + 1, []
+            with open(evs[i]) as f:
+                for line in f:
+                    lines.append(line)
+                    if len(lines) >= 3000:
+                        flush()
+            flush()
+
+        def judge(piece):
+            i, part, tr = piece
+            r = tlc("Trace_Lib.tla", "Trace_Lib.cfg", os.path.join(work, "trl_%s_%d_%d" % (name, i, part)), workers=1, timeout=3000,
                     env={"TRACE": tr}, trace_mode=True, heap="3g")
             if '"ACCEPTED"' not in r["out"]:
                 raise ToolError("Trace_Lib did not consume %s:\n%s" % (tr, r["out"][-3000:]))
+            os.remove(tr)
             return i, prints(r["out"], "VERDICT"), r["distinct"]
 
         with concurrent.futures.ThreadPoolExecutor(max_workers=5) as ex:
-            for i, vs, st in ex.map(judge, range(shards)):
+            for i, vs, st in ex.map(judge, pieces):
                 res.cov["trace_states"] = res.cov.get("trace_states", 0) + st
                 byc = None
                 for v in vs:
